@@ -280,7 +280,11 @@ class Paraxial:
         max_field = self.optic.fields.max_y_field
 
         if self.optic.field_type == 'object_height':
-            u1 = 0.1 * max_field / y[-1]
+            # the reverse trace stops at the first surface; carry the ray on
+            # to the object plane, where the field height is defined
+            positions = surfaces.positions
+            t = positions[-1] - positions[-2]
+            u1 = 0.1 * max_field / (y[-1] + u[-1] * t)
         elif self.optic.field_type == 'angle':
             u1 = 0.1 * np.tan(np.deg2rad(max_field)) / u[-1]
 
